@@ -397,5 +397,3 @@ func genRotmg(g *vlib.G) {
 		}
 	}
 }
-
-var _ = vlib.Ints
